@@ -158,6 +158,20 @@ func (ex *Exec) externalDefault(st *State, fr *Frame, sig *types.Signature, name
 
 func (ex *Exec) havocArg(st *State, a Val, at types.Type) {
 	switch kindOf(at) {
+	case KIface:
+		// an interface argument (json Decode(&v), binary.Read(..., &v)): the callee
+		// may write through the value it wraps
+		if s, ok := a.(Sc); ok {
+			if rec, has := ex.ifacePayload[s.T]; has {
+				if kindOf(rec.t) != KIface {
+					ex.havocArg(st, rec.v, rec.t)
+				}
+				return
+			}
+			if s.T != z64() {
+				ex.havocAllHeap(st, "interface argument of unknown dynamic type")
+			}
+		}
 	case KSlice:
 		switch s := a.(type) {
 		case *Agg:
